@@ -151,6 +151,9 @@ def state_checks(r, node_index, tier, op):
     if tier == "quick":
         tails = [TAILS[node_index % len(TAILS)]]
         comm = [(COMMUTE[node_index % 4], RC.STRATS[(node_index // 4) % 6])]
+    elif tier == "thorough-deep":
+        tails = [TAILS[(node_index + j * 7) % len(TAILS)] for j in range(3)]
+        comm = [(COMMUTE[node_index % 4], RC.STRATS[(node_index // 4) % 6])]
     else:
         tails = TAILS
         comm = [(c, RC.STRATS[(node_index + i) % 6]) for i, c in enumerate(COMMUTE)]
@@ -267,7 +270,8 @@ def harnesses(tier, seed):
             idx = len(ctx.choices) * 7 + sum((i + 1) * c for i, c in enumerate(ctx.choices)) + seed
             case = {"kind": "history-c08", "init": ii, "ops": [list(o) for o in ops_done], "node": idx, "tier": tier}
             if len(ops_done) <= heavy_depth:
-                fails = state_checks(r, idx, tier, op)
+                # thorough: every (strategy, n, rule) tail in states of depth <= 2, three rotating ones at depth 3
+                fails = state_checks(r, idx, "thorough-deep" if (tier == "thorough" and len(ops_done) >= 3) else tier, op)
             else:
                 fails = WO.tag(r.reference_tracks(), op, r.history)
             ctx.case(1)
